@@ -419,6 +419,8 @@ class SymRelDelta(SymObject):
 
 def m_relativedelta(it, dt1=None, dt2=None, **kw):
     from dateutil.relativedelta import relativedelta as _rd
+    # a whole-number Excel Number is taken for its value (dateutil reads it through int() and the arithmetic dunders)
+    kw = {k: (v.value if type(v).__name__ == 'Number' and hasattr(v, 'value') and (is_sym(v.value) or isinstance(v.value, int)) else v) for k, v in kw.items()}
     if dt1 is None and dt2 is None and set(kw) <= {'years', 'months', 'days', 'day'} and any(is_sym(v) for v in kw.values()):
         for f in ('years', 'months'):
             v = kw.get(f, 0)
